@@ -11,7 +11,7 @@ RULE = ("digitize: strictly monotonic bins (length 1..40 quick / 1..80 thorough,
         "queries can hit an edge exactly, or arbitrary doubles) x query points = every edge, every midpoint, the float32 "
         "neighbours of every edge, far outliers and random draws, all float32-representable; oracle numpy.digitize(right=True). "
         "digitize-lengths: every length 1..64 (1..200 thorough) plus the lengths around powers of two up to 1025 (4097 thorough) x both directions on integer edges (exhaustive over lengths). "
-        "trees: DecisionTreeRegressor/Classifier fitted on generated float32-grid data (depth 1..6, single-node trees included), "
+        "trees: DecisionTreeRegressor/Classifier fitted on generated float32-grid data (depth 1..6, single-node trees included; one case in six has NaN cells in the training table), "
         "queries on the grid plus float32 neighbours of every threshold; oracles: apply(), children arrays, and box<->routing "
         "equivalence in both directions; then the same estimator object is refitted (mirrored data, reversed targets or a prefix) and everything is checked again on the tree it holds now. Non-trivial: >=3 bins and an edge hit (digitize); >=3 leaves (trees).")
 ASSUMPTIONS = [
@@ -113,11 +113,15 @@ def _length_cases(tier):
 # ----------------------------------------------------------------------------- fitted trees
 def _fit_tree(case):
     X = _f32(case["X"]).reshape(len(case["X"]), -1)
+    for i, j in case.get("nan_cells", []):
+        # scikit-learn trees accept missing values in the training table (best splitter): a split may then separate "missing" from the
+        # rest with an infinite threshold
+        X[i % X.shape[0], j % X.shape[1]] = np.nan
     y = np.array(case["y"])
     cls = DecisionTreeClassifier if case["kind"] == "clf" else DecisionTreeRegressor
     kw = dict(max_depth=case["max_depth"], min_samples_leaf=case["min_samples_leaf"], random_state=case["rs"])
     if case.get("splitter"):
-        kw["splitter"] = case["splitter"]
+        kw["splitter"] = "best" if case.get("nan_cells") else case["splitter"]
     if case.get("max_leaf_nodes"):
         kw["max_leaf_nodes"] = case["max_leaf_nodes"]          # scikit-learn then grows the tree best-first: node ids are not in prefix order
     m = cls(**kw)
@@ -137,6 +141,8 @@ def _queries(model, X, extra):
         for node in inner:
             f = int(t.feature[node])
             th32 = np.float32(t.threshold[node])
+            if not np.isfinite(th32):
+                continue                 # a split on "missing": no finite point sits next to it
             for v in (th32, np.nextafter(th32, np.float32(np.inf)), np.nextafter(th32, np.float32(-np.inf))):
                 q = base.copy()
                 q[:, f] = v
@@ -163,6 +169,7 @@ def _check_model(model, X, extra, facts, stage=""):
             "tree_leave_index=%r, nodes without children=%r" % (list(li), ref_leaves), facts)
     require(set(app.tolist()) <= set(ref_leaves), "leave_index:apply-not-leaf", "", facts)
     Q64 = Q.astype(np.float64)
+    finite = ~np.isnan(Q64).any(axis=1)
     for leaf in ref_leaves:
         R = _str.tree_node_range(model, leaf)
         R = np.asarray(R, dtype=np.float64)
@@ -174,7 +181,7 @@ def _check_model(model, X, extra, facts, stage=""):
             if not np.isnan(R[f, 1]):
                 inbox &= Q64[:, f] <= R[f, 1]
         routed = app == leaf
-        bad = np.nonzero(inbox != routed)[0]
+        bad = np.nonzero((inbox != routed) & finite)[0]
         if len(bad):
             i = int(bad[0])
             raise Violation("node_range:" + ("box-not-in-leaf" if inbox[i] else "leaf-not-in-box") + stage,
@@ -204,6 +211,9 @@ def check_tree(case):
         X2, y2 = X[:k], y[:k]
     model.fit(X2, y2)
     leaves2 = _check_model(model, X2, case["q"], dict(facts, refit=refit), stage=":after-refit")
+    labels.append("nan-in-training-table" if case.get("nan_cells") else "no-nan")
+    if np.isinf(t.threshold).any():
+        labels.append("split-on-missing")
     labels.append("refit:" + refit + (":same-leaf-count-other-ids" if len(leaves2) == nl and leaves2 != ref_leaves else ""))
     return Outcome(labels, nl >= 3, key=shape_key)
 
@@ -222,6 +232,7 @@ def _tree_cases(draw, tier="quick"):
     q = draw(st.lists(st.lists(st.integers(-48, 48).map(lambda k: k / 4.0), min_size=d, max_size=d), max_size=10))
     return dict(X=X, y=y, kind=kind, max_depth=draw(st.integers(1, 6)), min_samples_leaf=draw(st.integers(1, 3)),
                 rs=draw(st.integers(0, 5)), splitter=draw(st.sampled_from(["best", "random"])), q=q,
+                nan_cells=draw(st.lists(st.tuples(st.integers(0, 79), st.integers(0, 4)).map(list), min_size=1, max_size=6)) if draw(st.integers(0, 5)) == 0 else [],
                 max_leaf_nodes=draw(st.sampled_from([None, None, 3, 5, 8, 12])), refit=draw(st.sampled_from(["mirror", "mirror", "reverse-target", "prefix"])))
 
 
